@@ -233,10 +233,36 @@ def check_run_behave(chk, ix, mutate=None):
     if not trys:
         raise AnalysisError("run_behave: no try statement found (anchor vanished)")
     handler_classes = []
+    probe = Interp(ix, name="handler classes")
+    from .absexpr import _ModuleScope
+    from .values import ClassVal as _ClassVal, ModuleVal as _ModuleVal
+
+    def class_names(expr):
+        """the exception classes an except clause names (directly, as a tuple, or through a module-level table)"""
+        st0 = State()
+        st0.frames = [{}]
+        probe.cur_func = _ModuleScope(fi.module)
+        try:
+            outs = probe.eval(st0, expr)
+        finally:
+            probe.cur_func = None
+        if len(outs) != 1 or outs[0][1] != "val":
+            raise AnalysisError("run_behave: except clause %s not resolvable" % unparse(expr))
+        v = outs[0][2]
+        vs = v if isinstance(v, tuple) else (v,)
+        names = []
+        for x in vs:
+            if isinstance(x, _ClassVal):
+                names.append(x.name())
+            elif isinstance(x, _ModuleVal) and not hasattr(x.mod, "tree"):
+                names.append(str(x.mod).split(".")[-1])
+            else:
+                raise AnalysisError("run_behave: except clause %s names %r, not an exception class" % (unparse(expr), x))
+        return names
     for t in trys:
         for h in t.handlers:
             if h.type is not None:
-                handler_classes.append(unparse(h.type))
+                handler_classes.extend(class_names(h.type))
     w = World(ix)
     stubs = dict(w.stubs)
     stubs["@with"] = "transparent"
